@@ -41,6 +41,12 @@ CHECKS = {
    text="Generated-input search over rejected inputs: single-token corruptions of generated statements (one-line and multi-line), 13 kinds of lexical error after a valid prefix, soup, nesting beyond the depth limit in five constructs, bad statement starts; through every entry point that can fail. Each reported error must unwrap to *errors.Error with a documented code of the right family (the failing stage is known from running the tokenizer alone), a non-empty message, an in-range location when set, a reachable cause, and must be identical when the call is repeated after unrelated parses.",
    note="Trusted: the code registry read from pkg/errors/errors.go of the tree under test; stage classification by a tokenizer-only run; byte/token limit violations are exercised in C02.",
    design="4/C13"),
+ "C12": dict(
+   technique="property-based testing: generated scripts of valid/corrupted segments with strict parsing of each segment as the reference model; differential (recovery vs strict) on arbitrary soup; hang budget for termination",
+   level="exploration",
+   text="Generated-input search: (a) token soup, statement-keyword soup and multiply-corrupted statements: recovery parsing must return within a generous budget and report an error exactly when strict parsing fails; (b) scripts S1;...;Sn of flat generated statements, each kept or corrupted: recovery must return exactly the trees strict parsing gives for the well-formed segments, in order, and one error per malformed segment naming a token of that segment. Termination is decided by budget, not proved.",
+   note="Trusted: gosqlx.Parse of a segment alone as the classifier; parser token indices equal generated token indices (GROUPING SETS, the one compound token that is not re-split, is not generated here).",
+   design="4/C12"),
 }
 
 def main():
